@@ -59,18 +59,39 @@ def build_harness():
         lockfile = os.path.join(hdir, "Cargo.lock")
         if not os.path.exists(lockfile):
             shutil.copy(os.path.join(repo, "Cargo.lock"), lockfile)
-        for prof in ([], ["--release"]):
-            t0 = time.time()
-            r = subprocess.run(["cargo", "build", "--offline", "-q"] + prof, cwd=hdir, env=env,
-                               stdout=subprocess.PIPE, stderr=subprocess.STDOUT, text=True)
-            if r.returncode != 0:
-                raise ToolError("harness build failed (%s):\n%s" % (prof, r.stdout[-4000:]))
-            log("built harness %s in %.1fs" % ("release" if prof else "dev", time.time() - t0))
+        # The harness implements the crate's public Reader and Writer traits itself.  When a change to those
+        # traits (a new required method, say) makes these implementations stop compiling, fall back to a build
+        # without them -- SliceReader / VecWriter only -- rather than being unable to decide anything; the
+        # properties that NEED the custom implementations (C02) then report a tool error of their own.
+        variants = [("full", []),
+                    ("no-custom-readers", ["--no-default-features", "--features", "custom_writers"]),
+                    ("no-custom-writers", ["--no-default-features", "--features", "custom_readers"]),
+                    ("no-custom-readers-or-writers", ["--no-default-features"])]
+        mode, last = None, ""
+        for name, feat in variants:
+            ok = True
+            for prof in ([], ["--release"]):
+                t0 = time.time()
+                r = subprocess.run(["cargo", "build", "--offline", "-q"] + feat + prof, cwd=hdir, env=env,
+                                   stdout=subprocess.PIPE, stderr=subprocess.STDOUT, text=True)
+                if r.returncode != 0:
+                    ok = False
+                    last = r.stdout
+                    break
+                log("built harness %s%s in %.1fs" % ("release" if prof else "dev", "" if name == "full" else " (%s)" % name, time.time() - t0))
+            if ok:
+                mode = name
+                break
+        if mode is None:
+            raise ToolError("harness build failed:\n%s" % last[-4000:])
+        if mode != "full":
+            log("FALLBACK BUILD %s: the harness's own implementations of the crate's Reader / Writer traits no longer "
+                "compile against this tree (the public trait changed)" % mode)
     finally:
         fcntl.flock(lock, fcntl.LOCK_UN)
         lock.close()
     return {"dev": os.path.join(hdir, "target", "debug", "rlv"),
-            "rel": os.path.join(hdir, "target", "release", "rlv")}
+            "rel": os.path.join(hdir, "target", "release", "rlv"), "mode": mode}
 
 
 # ------------------------------------------------------------------------------------------
@@ -656,6 +677,9 @@ def main():
     os.makedirs(workdir)
     try:
         bins = build_harness()
+        if plan.get("readers") == "all" and "readers" in bins.get("mode", "full"):
+            raise ToolError("this property is decided with the harness's own Reader implementations, which do not compile "
+                            "against this tree: the public Reader trait changed incompatibly")
 
         # ---- cases
         cases = []
